@@ -10,7 +10,7 @@
 //                                                                           -> c=1 <hex> | c=0
 //   rsc <N> <freqs>                RAnsSymbolEncoder<N>::Create alone -> c=1 <table hex> | c=0
 //   rsd <N> <ver> <n> <pre> <hex>  RAnsSymbolDecoder<N>: Create, StartDecoding, n * DecodeSymbol
-//                                  (<pre> = 4 bytes lying in memory in front of the buffer) -> ok <syms> <remaining> | fail
+//                                  (<pre> = 4 bytes lying in memory in front of the buffer; must not matter) -> ok <syms> <remaining> | fail
 // '!' lines: the property fails on the implementation itself (real round trip with a sentinel behind the block,
 // Create() returning false on a table the callers would use blindly).
 #include <algorithm>
@@ -88,14 +88,16 @@ static bool create_ok(int N, const std::vector<uint64_t> &f) {
 
 // ---------------------------------------------------------------- DecodeSymbols case
 static std::string dec_case(Out &o, uint16_t ver, uint32_t n, int nc, const std::vector<uint8_t> &bytes, bool emit = true) {
-  // three guard bytes in front so that read_init's unguarded 4-byte tail read stays inside our allocation
+  // four spare bytes in front of the buffer (read_init used to read in front of short blocks; fixed in f82c4f5)
   std::vector<uint8_t> mem(4, 0); mem.insert(mem.end(), bytes.begin(), bytes.end());
   DecoderBuffer db; db.Init((const char *)mem.data() + 4, bytes.size(), ver);
   uint32_t groups = nc > 0 ? (n + nc - 1) / nc : n;
   std::vector<uint32_t> out((size_t)groups * std::max(nc, 1) + 8, 0xDEADBEEF);
   bool ok = DecodeSymbols(n, nc, &db, out.data());
+  for (size_t k = n; k < out.size(); k++)
+    if (out[k] != 0xDEADBEEF) { o.fail("DecodeSymbols wrote past out_values[num_values-1]: ds " + S(ver) + " " + U(n) + " " + S(nc) + " " + hex(bytes.data(), bytes.size())); break; }
   std::string res;
-  if (ok) { out.resize(n == 0 ? 0 : (size_t)groups * nc); res = "ok " + csv(out) + " " + S(db.remaining_size()); g_cov[COV_DEC_OK]++; }
+  if (ok) { out.resize(n); res = "ok " + csv(out) + " " + S(db.remaining_size()); g_cov[COV_DEC_OK]++; }
   else { res = "fail"; g_cov[COV_DEC_FAIL]++; }
   if (emit) o.c("ds " + S(ver) + " " + U(n) + " " + S(nc) + " " + hex(bytes.data(), bytes.size()), res);
   return res;
@@ -141,7 +143,7 @@ static void malformed_from(Out &o, Rng &r, const std::vector<uint8_t> &good, uin
       case 3: if (!b.empty()) { size_t i = r.below(b.size()); b.erase(b.begin() + i); } break;
       case 4: { size_t i = r.below(b.size() + 1); b.insert(b.begin() + i, (uint8_t)r.next()); } break;
       case 5: if (b.size() > 8) b[b.size() - 4 - r.below(4)] = (uint8_t)(r.chance(50) ? 0xC0 | r.below(64) : r.next()); break;  // the last bytes of the block
-      case 6: n2 = (uint32_t)std::max<int64_t>(nc, (int64_t)n + nc * r.range(-3, 3)); break;  // other count
+      case 6: n2 = (uint32_t)std::max<int64_t>(1, (int64_t)n + r.range(-3, 3)); if (r.chance(40)) nc2 = (int)r.range(0, 4); break;  // other count / component count (non-multiples, 0)
       case 7: if (b.size() > 2) { b[0] = (uint8_t)r.below(3); b[1] = (uint8_t)r.below(22); } break;  // scheme / bit-length byte
       default: for (int j = 0; j < 3 && !b.empty(); j++) b[r.below(std::min<size_t>(b.size(), 40))] = (uint8_t)r.next(); break;
     }
@@ -434,6 +436,7 @@ int main(int argc, char **argv) {
     if (len > 1 && b[0] == 1 && r.chance(80)) b[1] = (uint8_t)r.range(1, 18);
     int nc = (int)r.range(1, 4);
     uint32_t n = (uint32_t)(nc * r.range(1, 6));
+    if (r.chance(15)) { n += (uint32_t)r.below(3); if (r.chance(30)) nc = 0; }   // counts the tagged scheme must refuse
     uint16_t ver = r.chance(85) ? 0x0202 : (uint16_t)(r.chance(50) ? 0x0103 : 0x0200);
     dec_case(o, ver, n, nc, b);
     if (i % 4 == 0) { uint8_t pre[4]; for (auto &p : pre) p = (uint8_t)r.next(); rsd_case(o, (int)r.range(1, 18), ver, n, b, pre); }
